@@ -270,7 +270,7 @@ def writer_forms_by_simulation(body):
             else:
                 return None
     # merge adjacent intervals of the same form
-    forms.sort(key=_nk)
+    forms = sorted(set(forms), key=_nk)
     merged = []
     for f in forms:
         if merged and merged[-1][2:] == f[2:] and merged[-1][1] + 1 == f[0]:
@@ -534,7 +534,9 @@ def _nk(x):
 def writer_forms(wl):
     """sorted (lo, hi, marker, extra, order) of the non-diverging writer leaves; two tests in a row may cut one form's
     range in two (`try_from::<u8>` then `!= 0xff`): adjacent ranges with the same form are one range"""
-    w = sorted(((l[0], min(l[1], 65535), l[2], l[3], l[4]) for l in wl if not l[5] and l[0] <= 65535), key=_nk)
+    # (the same leaf reached over several paths that differ only in something unrelated to the length - a log statement's
+    # level tests - is one leaf)
+    w = sorted({(l[0], min(l[1], 65535), l[2], l[3], l[4]) for l in wl if not l[5] and l[0] <= 65535}, key=_nk)
     merged = []
     for l in w:
         if merged and merged[-1][2:] == l[2:] and merged[-1][1] + 1 == l[0]:
@@ -578,7 +580,7 @@ def run(ctx, chk):
         chk.require(w_ok == want, "C16-b/writer-switch-points", short,
                     "writer forms are %s, specification says %s" % (fmt_w(w_ok), fmt_w(want)), fmt_w(want), d["serialize"].sp())
         # writer covers 0..65535 without gaps/overlaps
-        cov = sorted((l[0], min(l[1], 65535)) for l in wl if not l[5] and l[0] <= 65535)
+        cov = sorted({(l[0], min(l[1], 65535)) for l in wl if not l[5] and l[0] <= 65535})
         gap = cov and cov[0][0] == 0 and all(cov[i][1] + 1 == cov[i + 1][0] for i in range(len(cov) - 1)) and cov[-1][1] == 65535
         chk.require(bool(gap), "C16-b/writer-covers-range", short, "writer ranges %s do not partition 0..65535" % cov,
                     "0..65535 partitioned", d["serialize"].sp())
